@@ -142,6 +142,8 @@ type node struct {
 	appHash string
 	obs     StepObs
 	dead    bool // diverged or halted: not expanded
+	// degraded: model and implementation disagreed on the way here (see Exec.Degraded)
+	degraded bool
 	// a node without a snapshot of its own (memory cap reached) is re-derived when it is expanded: restore
 	// the nearest ancestor that has one and replay the letters in between
 	anc    *node
@@ -172,7 +174,7 @@ type Stats struct {
 	OracleEvals           int            `json:"oracle_evaluations"`
 	Outcomes              map[string]int `json:"outcomes"` // action kind/result histogram
 	Foreign               map[string]int `json:"foreign_discrepancies,omitempty"`
-	DeadStates            int            `json:"dead_states,omitempty"`
+	DeadStates            int            `json:"states_past_a_disagreement_with_the_model,omitempty"`
 	PartialLevel          int            `json:"transitions_checked_in_the_unfinished_level,omitempty"`
 	LazyNodes             int            `json:"nodes_rederived_from_an_ancestor_snapshot,omitempty"`
 	ConformanceMismatches int            `json:"conformance_mismatches,omitempty"`
@@ -265,6 +267,9 @@ func (s *Scenario) Explore(opt Options) (Stats, []Violation) {
 				addViol(path, d, obs)
 				owned = true
 			} else {
+				if st.Foreign[d.Kind] == 0 && os.Getenv("VERIF_SHOW_FOREIGN") != "" {
+					fmt.Fprintf(os.Stderr, "FOREIGN %s at %v: %s\n", d.Kind, path, d.Detail)
+				}
 				st.Foreign[d.Kind]++
 			}
 		}
@@ -398,7 +403,9 @@ func (s *Scenario) Explore(opt Options) (Stats, []Violation) {
 						}
 						e.Visit = visit
 					}
+					e.Degraded = p.degraded
 					obs, discs := e.Run(&s.Actions[j.act], !opt.NoOracle)
+					e.Degraded = false
 					r := result{job: j, obs: obs, discs: discs}
 					if !obs.Halted {
 						r.key = e.Key(s.KeyTimeNs)
@@ -481,7 +488,13 @@ func (s *Scenario) Explore(opt Options) (Stats, []Violation) {
 			seen[r.key] = true
 			st.States++
 			newCount++
-			n := &node{path: path, snap: r.snap, m: r.m, aux: r.aux, key: r.key, appHash: r.obs.AppHash, obs: r.obs, dead: r.obs.Diverged || divergent(r.discs)}
+			// a state where model and implementation disagree is still expanded, with the model-independent
+			// oracles only (what happens to a chain after an anomaly - does it halt? do the books break? - is
+			// part of several properties)
+			n := &node{path: path, snap: r.snap, m: r.m, aux: r.aux, key: r.key, appHash: r.obs.AppHash, obs: r.obs, degraded: p.degraded || r.obs.Diverged || divergent(r.discs)}
+			if n.degraded {
+				st.DeadStates++
+			}
 			if n.snap == nil && depth < opt.Depth { // lazily re-derived from the nearest ancestor with a snapshot
 				if p.snap != nil {
 					n.anc, n.suffix = p, []int{r.job.act}
@@ -491,9 +504,6 @@ func (s *Scenario) Explore(opt Options) (Stats, []Violation) {
 				st.LazyNodes++
 			}
 			n.obs.Txs = nil // observations are reported with the transition; the node keeps what its expansion needs
-			if n.dead {
-				st.DeadStates++
-			}
 			nextFrontier = append(nextFrontier, n)
 			if len(st.Samples) < 4 || (depth == opt.Depth && len(st.Samples) < 6) {
 				st.Samples = append(st.Samples, names(path))
@@ -666,8 +676,11 @@ func (s *Scenario) ReplayNames(path []string) ([]StepObs, [][]Disc) {
 		obs, d := e.Run(s.action(n), true)
 		obsv = append(obsv, obs)
 		ds = append(ds, d)
-		if obs.Halted || obs.Diverged {
+		if obs.Halted {
 			break
+		}
+		if obs.Diverged || divergent(d) {
+			e.Degraded = true
 		}
 	}
 	return obsv, ds
